@@ -322,3 +322,97 @@ class Streams:
                                 j = dict(base)
                                 j[p["name"]] = bad
                                 yield (name, "wrong-literal", p["name"], j)
+
+    # ---- the same four single-field deviations at NESTED protocol-object nodes of a valid root value
+    def nested_malformed_stream(self, per_root=6):
+        """(root, edit kind, path, json): a valid value of a root type (message class or structure) in which ONE nested object node
+        (a structure reached through properties, arrays, maps, tuples, aliases and union alternatives) got one of the four C11 edits,
+        and the edited root is no longer valid under the metamodel even when undeclared properties are ignored (an edit that turns a
+        union member into something another alternative accepts is skipped).  Integer ranges, closed enumerations, literals and required properties must be enforced wherever the
+        class is structured, not only when it is the root."""
+        import copy
+        import mmvalid
+        m = self.m
+
+        def nodes(t, j, path, depth=0):
+            """(structure name, path) of nested dict nodes typed by a structure"""
+            if depth > 30:
+                return
+            k = t["kind"]
+            if k == "reference":
+                n = t["name"]
+                if n in ("LSPAny", "LSPObject", "LSPArray") or n in m.enums:
+                    return
+                if n in m.structs and isinstance(j, dict):
+                    if path:
+                        yield (n, path)
+                    for p in m.flatten(n):
+                        if p["name"] in j:
+                            yield from nodes(p["type"], j[p["name"]], path + [p["name"]], depth + 1)
+                elif n in m.aliases:
+                    yield from nodes(m.aliases[n]["type"], j, path, depth + 1)
+            elif k == "array" and isinstance(j, list):
+                for i, x in enumerate(j[:2]):
+                    yield from nodes(t["element"], x, path + [i], depth + 1)
+            elif k == "map" and isinstance(j, dict):
+                for kk, v in list(j.items())[:2]:
+                    yield from nodes(t["value"], v, path + [kk], depth + 1)
+            elif k == "tuple" and isinstance(j, list):
+                for i, (it, x) in enumerate(zip(t["items"], j)):
+                    yield from nodes(it, x, path + [i], depth + 1)
+            elif k == "literal" and isinstance(j, dict):
+                for p in t["value"]["properties"]:
+                    if p["name"] in j:
+                        yield from nodes(p["type"], j[p["name"]], path + [p["name"]], depth + 1)
+            elif k == "or":
+                for alt in t["items"]:
+                    if mmvalid.valid(m, alt, j):
+                        yield from nodes(alt, j, path, depth + 1)
+                        break
+
+        def at(j, path):
+            for p in path:
+                j = j[p]
+            return j
+
+        for name, kind, t in self.roots:
+            base = self.vg.value(t, "max")
+            found = list(nodes(t, base, []))
+            self.rnd.shuffle(found)
+            emitted = 0
+            for sname, path in found:
+                if emitted >= per_root:
+                    break
+                node = at(base, path)
+                for p in m.flatten(sname):
+                    pt = p["type"]
+                    pn = p["name"]
+                    edits = []
+                    if not p.get("optional") and not Meta.null_admitting(pt) and pt["kind"] != "stringLiteral" and pn in node:
+                        edits.append(("missing-required", None))
+                    if pt["kind"] == "base" and pt["name"] in ("integer", "uinteger") and pn in node:
+                        lo = -(2**31) if pt["name"] == "integer" else 0
+                        edits += [("out-of-range", lo - 1), ("out-of-range", 2**31)]
+                    if pt["kind"] == "reference" and pt["name"] in m.enums and not m.enum_custom(m.enums[pt["name"]]) and pn in node:
+                        e = m.enums[pt["name"]]
+                        vals = [v["value"] for v in e["values"]]
+                        edits.append(("not-a-member", "no-such-member" if e["type"]["name"] == "string" else max(vals) + 1))
+                    if pt["kind"] == "stringLiteral" and pn in node:
+                        edits.append(("wrong-literal", pt["value"] + "x"))
+                    for edit, bad in edits:
+                        j = copy.deepcopy(base)
+                        nd = at(j, path)
+                        if edit == "missing-required":
+                            del nd[pn]
+                        else:
+                            nd[pn] = bad
+                        if mmvalid.valid_lenient(m, t, j):
+                            continue        # still readable as a valid value once undeclared properties are ignored (e.g. as another
+                                            # union alternative, C15): nothing to reject
+                        emitted += 1
+                        yield (name, edit, "/".join(str(x) for x in path) + "." + pn, j)
+                        if emitted >= per_root:
+                            break
+                    if emitted >= per_root:
+                        break
+
